@@ -139,6 +139,20 @@ def seqStep (st : SeqSt) (line : String) : SeqSt × String :=
     match id.toNat? with
     | some id => let (s', r) := s.release id .ok; ({ st with s := s' }, seqResStr r)
     | none => (st, "bad-op")
+  | ["relrace", id, sched] =>
+    -- Release is parked inside its transaction, then Next is called on the same object: both
+    -- hold seq.lock for their whole body, so Next must have waited (`sched=blocked`); any other
+    -- observed schedule is not a behaviour of the model
+    match id.toNat? with
+    | some id =>
+      match s.find id with
+      | none => (st, "bad-op")
+      | some _ =>
+        if sched != "sched=blocked" then (st, "impossible:seq.lock-is-held-by-Release-across-its-transaction") else
+        let (s', r1, r2) := s.releaseThenNext lf id
+        ({ st with s := s' }, "release=" ++ seqResStr r1 ++ " next=" ++
+          (match r2 with | .val n => s!"ok:{n}" | r => seqResStr r))
+    | none => (st, "bad-op")
   | ["state", id] =>
     match id.toNat? with
     | some id =>
